@@ -20,7 +20,7 @@ func init() {
 	for _, w := range c13Workloads {
 		floor = append(floor, "workload."+w)
 	}
-	floor = append(floor, "shared.where", "shared.subquery", "shared.exists", "shared.in-subquery", "shared.order", "shared.group", "shared.distinct", "shared.cte-wrapped", "par.join", "par.join-fail", "par.async", "par.spinasync", "par.await-async", "cached.open-range")
+	floor = append(floor, "shared.where", "shared.subquery", "shared.exists", "shared.in-subquery", "shared.order", "shared.group", "shared.distinct", "shared.cte-wrapped", "par.join", "par.join-fail", "par.async", "par.spinasync", "par.await-async", "par.async-deep", "par.join-like", "cached.open-range")
 	fw.Register(&fw.Prop{
 		ID:    "C13",
 		Title: "Concurrent queries are free of data races, crashes and cross-talk",
@@ -212,7 +212,15 @@ func c13Run(c *fw.Case) {
 		for g := 0; g < G; g++ {
 			for i := 0; i < iters; i++ {
 				var sql, feat string
-				switch c.Intn(6) {
+				switch c.Intn(8) {
+				case 6:
+					// ASYNC calls, not wrapped in AWAIT, below the second FROM dimension
+					sql, feat = gen.Pick(c.R, []string{"SELECT rid, ASYNC.VF(a, rid, 1) AS r FROM cube", "SELECT rid, ASYNC.VF(b, rid, 2) AS r, SPINASYNC.VF(a, rid, 1) FROM cube WHERE a >= 0", "SELECT a, ASYNC.VF(a, 1, 1) AS r FROM mm"}), "par.async-deep"
+				case 7:
+					// LIKE with a column pattern inside the ON of a nested-loop PARALLEL join
+					jn := gen.Pick(c.R, []string{"PARALLEL JOIN", "PARALLEL LEFT JOIN", "PARALLEL RIGHT JOIN", "PARALLEL STRAIGHT_JOIN"})
+					on := gen.Pick(c.R, []string{"x.s1 LIKE y.us1", "x.s1 NOT LIKE y.us1", "x.s1 LIKE y.us1 OR x.n1 = y.un1", "y.us1 LIKE x.s1 AND x.n1 >= y.un1", "x.s1 LIKE '%a%' OR x.s1 LIKE y.us1"})
+					sql, feat = "SELECT * FROM t1 x "+jn+" u1 y ON "+on, "par.join-like"
 				case 4:
 					// several key groups fail at once: the join must report an error, not dead-lock
 					jn := gen.Pick(c.R, []string{"PARALLEL JOIN", "PARALLEL LEFT JOIN", "PARALLEL HASH_JOIN", "PARALLEL STRAIGHT_JOIN"})
